@@ -100,6 +100,119 @@ theorem writeback {α : Type} [NumOps α] (ps : List (Param α)) (names : List S
     unfold updateParam estimates
     rw [lookup_zip_none names x _ hnot]
 
+/-! ### bootstrap, and sequences of operations on one object -/
+
+/-- **`estimate(run_bootstrap=True)`** (every list of resampled likelihoods, whatever the
+optimiser does on them): what the results report about the estimation is exactly what
+`estimate` without bootstrapping reports — in particular the log likelihood, gradient, Hessian
+and BHHH are those of the likelihood *of the data of the database* at x*, not of the last
+sample; there is one bootstrap estimate per sample, of the right dimension and inside the box
+for a bound-aware algorithm whenever the optimiser respects its contract on that sample. -/
+theorem result_consistent_bootstrap (like : Vec ℝ → ℝ) (ev : Vec ℝ → Eval ℝ) (fd : Vec ℝ → Mat ℝ) (opt : Optimizer ℝ)
+    (bounds : Bounds ℝ) (x0 : Vec ℝ) (aware : Bool) (boot : Option (List (Objective ℝ)))
+    (hev : ∀ x, (ev x).f = like x) (hc : OptContract opt aware like ev bounds x0) :
+    let r := estimateBoot like ev fd opt bounds x0 boot
+    r.res = estimate like ev fd opt bounds x0 ∧
+    r.res.logLike = like r.res.x ∧ r.res.g = some (ev r.res.x).g ∧ r.res.h = some (ev r.res.x).h ∧
+    r.res.bhhh = some (ev r.res.x).bhhh ∧ r.res.initLogLike = some (like x0) ∧ like x0 ≤ r.res.logLike ∧
+    (aware = true → inBox bounds r.res.x = true) ∧
+    (boot = none → r.bootstrap = none) ∧
+    (∀ ss, boot = some ss → ∃ rows, r.bootstrap = some rows ∧ rows.length = ss.length ∧
+      ∀ k (hk : k < ss.length) (hk' : k < rows.length),
+        OptContract opt aware (ss[k]).like (ss[k]).ev bounds r.res.x →
+          (rows[k]).length = x0.length ∧ (aware = true → inBox bounds rows[k] = true)) := by
+  have h := result_consistent like ev fd opt bounds x0 aware hev hc
+  obtain ⟨h1, h2, h3, h4, h5, h6, h7, h8⟩ := h
+  refine ⟨rfl, h1, h2, h3, h4, h5, h6, h7, ?_, ?_⟩
+  · intro hb; subst hb; rfl
+  · intro ss hb
+    subst hb
+    refine ⟨_, rfl, by simp, ?_⟩
+    intro k hk hk' hck
+    simp only [List.getElem_map]
+    exact ⟨hck.length.trans h8, hck.feasible⟩
+
+/-- **Every results object returned during any sequence of operations** on one object
+(evaluations at other points, `calculate_init_likelihood`, `change_init_values`, further
+`estimate` with or without bootstrapping, `quick_estimate`, in any order, from any state)
+reports the likelihood at its own point, and either the gradient, Hessian and BHHH of the
+likelihood at that point (`estimate`) or no derivatives (`quick_estimate`): nothing that
+happened before on the object enters a report. -/
+theorem session_reports_consistent (e : Env ℝ) (hev : ∀ x, (e.obj.ev x).f = e.obj.like x)
+    (s : Session ℝ) (ops : List (Op ℝ)) :
+    ∀ r ∈ (run e s ops).2,
+      r.res.logLike = e.obj.like r.res.x ∧
+      ((r.res.g = some (e.obj.ev r.res.x).g ∧ r.res.h = some (e.obj.ev r.res.x).h ∧
+          r.res.bhhh = some (e.obj.ev r.res.x).bhhh) ∨
+       (r.res.g = none ∧ r.res.h = none ∧ r.res.bhhh = none)) := by
+  refine run_forall e _ ?_ ops s
+  intro s op r h
+  cases op with
+  | eval x => simp [step] at h
+  | initLikelihood => simp [step] at h
+  | changeInit v => simp [step] at h
+  | estimate boot =>
+    simp only [step, Option.some.injEq] at h
+    subst h
+    refine ⟨hev _, Or.inl ⟨rfl, ?_, rfl⟩⟩
+    simp [estimateBoot, estimate, finalHessian_eq]
+  | quickEstimate =>
+    simp only [step, Option.some.injEq] at h
+    subst h
+    exact ⟨rfl, Or.inr ⟨rfl, rfl, rfl⟩⟩
+
+/-- the same under the optimiser's contract (from every starting point): every returned point
+is in the box for a bound-aware algorithm, and every report of `estimate` carries the likelihood
+of the values it started from as initial log likelihood, not above the final one -/
+theorem session_reports_contract (e : Env ℝ) (aware : Bool) (hev : ∀ x, (e.obj.ev x).f = e.obj.like x)
+    (hc : ∀ x0, OptContract e.opt aware e.obj.like e.obj.ev e.bounds x0) (s : Session ℝ) (ops : List (Op ℝ)) :
+    ∀ r ∈ (run e s ops).2,
+      (aware = true → inBox e.bounds r.res.x = true) ∧
+      (r.full = true → ∃ v, r.res.initLogLike = some v ∧ v ≤ r.res.logLike) := by
+  refine run_forall e _ ?_ ops s
+  intro s op r h
+  cases op with
+  | eval x => simp [step] at h
+  | initLikelihood => simp [step] at h
+  | changeInit v => simp [step] at h
+  | estimate boot =>
+    simp only [step, Option.some.injEq] at h
+    subst h
+    have hr := result_consistent e.obj.like e.obj.ev e.fd e.opt e.bounds s.idValues aware hev (hc s.idValues)
+    exact ⟨hr.2.2.2.2.2.2.1, fun _ => ⟨_, hr.2.2.2.2.1, hr.2.2.2.2.2.1⟩⟩
+  | quickEstimate =>
+    simp only [step, Option.some.injEq] at h
+    subst h
+    exact ⟨(hc s.idValues).feasible, fun hf => by simp [Report.full, quickEstimate] at hf⟩
+
+/-- **Evaluations leave no trace**: removing an evaluation at an explicit point from a sequence
+of operations changes neither the results objects returned nor the final state of the object
+(every number type, `Float` included). -/
+theorem session_eval_transparent {α : Type} [NumOps α] (e : Env α) (s : Session α) (ops₁ ops₂ : List (Op α))
+    (x : Vec α) : run e s (ops₁ ++ Op.eval x :: ops₂) = run e s (ops₁ ++ ops₂) :=
+  run_append_eval e x ops₂ ops₁ s
+
+/-- **After `estimate` (with or without bootstrapping) and any number of evaluations** the Beta
+objects of the formulas hold the write-back of the estimates (`writeback` says what that is),
+the values `estimate` starts from are unchanged, and exactly one results object was returned. -/
+theorem session_writeback {α : Type} [NumOps α] (e : Env α) (s : Session α) (boot : Option (List (Objective α)))
+    (evals : List (Vec α)) :
+    let out := run e s (Op.estimate boot :: evals.map Op.eval)
+    out.1.params = writeBack s.params (estimates e.names (estimate e.obj.like e.obj.ev e.fd e.opt e.bounds s.idValues).x) ∧
+    out.1.idValues = s.idValues ∧
+    out.2 = [estimateBoot e.obj.like e.obj.ev e.fd e.opt e.bounds s.idValues boot] := by
+  simp [run, step, run_evals, estimateBoot_res]
+
+/-- a second `estimate` on the same object (evaluations in between) starts from the same values
+as the first one — the estimates are written into the formulas, not into the values the
+estimation starts from — and therefore reports the same estimation -/
+theorem reestimate_restarts {α : Type} [NumOps α] (e : Env α) (s : Session α) (b₁ b₂ : Option (List (Objective α)))
+    (evals : List (Vec α)) :
+    (run e s (Op.estimate b₁ :: (evals.map Op.eval ++ [Op.estimate b₂]))).2.map (·.res) =
+      [estimate e.obj.like e.obj.ev e.fd e.opt e.bounds s.idValues,
+       estimate e.obj.like e.obj.ev e.fd e.opt e.bounds s.idValues] := by
+  simp [run, step, run_append, run_evals, estimateBoot_res]
+
 /-! ### option plumbing (decision table per algorithm name) -/
 
 /-- the names of `optimization.algorithms` are distinct keys, `'automatic'` runs
@@ -236,5 +349,18 @@ example (like : Vec ℝ → ℝ) (ev : Vec ℝ → Eval ℝ) (x0 : Vec ℝ) :
 /-- write-back on a concrete parameter list with a fixed parameter -/
 example : (writeBack [⟨"b2", (0 : Int), false⟩, ⟨"fix", 7, true⟩, ⟨"b10", 0, false⟩] (estimates ["b10", "b2"] [5, 3])).map (·.value)
     = [3, 7, 5] := by decide
+
+/-- a session: estimate with a two-sample bootstrap, an evaluation, then a second estimate without
+bootstrapping — two results objects, one bootstrap row per sample in the first, none in the second -/
+example (e : Env ℝ) (s : Session ℝ) (o₁ o₂ : Objective ℝ) (x : Vec ℝ) :
+    ((run e s [Op.estimate (some [o₁, o₂]), Op.eval x, Op.estimate none]).2.map fun r => r.bootstrap.map List.length)
+      = [some 2, none] := by
+  simp [run, step, estimateBoot]
+
+/-- the contract from every starting point is satisfiable (the optimiser that returns its
+starting point, an algorithm that ignores bounds) -/
+example (like : Vec ℝ → ℝ) (ev : Vec ℝ → Eval ℝ) (b : Bounds ℝ) :
+    ∀ x0, OptContract (fun _ _ _ _ x => ⟨x, false⟩) false like ev b x0 :=
+  fun _ => ⟨rfl, fun h => Bool.noConfusion h, le_refl _⟩
 
 end C07
